@@ -62,12 +62,83 @@ def run(ck: Check):
         traces.append(tr)
     verdicts = cc.validate(ck, traces)
     cc.report(ck, "C16", traces, verdicts, None, cfg_by_step)
-    ck.nontrivial_count += 0
+    bucket_part(ck)
+
+
+def bucket_part(ck):
+    """The classing that every tolerant pruning step uses (logscale_to_tolerance) must be monotone and narrow:
+    values in one class are within the factor 1+t of each other (spec/ToleranceBuckets.tla)."""
+    import os
+    import numpy as np, pandas as pd
+    from accelforge.mapper.FFM._pareto_df.pareto import logscale_to_tolerance
+    thorough = ck.tier == "thorough"
+    ck.tlc_expect_ok("ToleranceBuckets", "ToleranceBuckets_A.cfg", timeout=900)
+    r = ck.tlc("ToleranceBuckets", "ToleranceBuckets_wide.cfg", timeout=900)
+    if r.ok:
+        raise Machinery("role-A negative lemma: classes wider than 1+t must lose the near-optimum")
+    ck.extra["role_A_buckets"] = ("ToleranceBuckets: with a monotone classing whose classes span at most 1+t, keeping an "
+                                  "arbitrary member per class keeps a value within 1+t of the minimum; with wider classes TLC "
+                                  "finds a table where it does not")
+    tables = []
+    n = 1500 if not thorough else 6000
+    for on, od in ((1, 100), (1, 10), (1, 2), (1, 1)):
+        for scale, name in ((1, "ints"), (7, "x7"), (1000, "x1000")):
+            xs = [i * scale for i in range(1, n + 1)]
+            out = logscale_to_tolerance(pd.Series(np.array(xs, dtype=np.float64)), on / od)
+            vals = [float(v) for v in out]
+            ranks = {v: i for i, v in enumerate(sorted(set(vals)))}
+            # class ids in the order of the representatives; a representative that is not monotone in x shows as
+            # a class id that decreases
+            tables.append({"id": "t=%d/%d,%s" % (on, od, name), "on": on, "od": od, "xs": xs, "cls": [ranks[v] for v in vals]})
+    # TLC's integers are 32-bit: x * (od + on) stays below 2^31 for x <= 6000 * 1000 and od + on <= 101
+    path = os.path.join(ck.work, "buckets.json")
+    # NarrowT compares all pairs: keep each table short by sending only class boundaries (first and last member
+    # of every class) plus, for monotonicity, the full sequence in chunks
+    slim = []
+    for tb in tables:
+        keep = [i for i in range(len(tb["xs"])) if i == 0 or i == len(tb["xs"]) - 1
+                or tb["cls"][i] != tb["cls"][i - 1] or tb["cls"][i] != tb["cls"][i + 1]]
+        slim.append(dict(tb, xs=[tb["xs"][i] for i in keep], cls=[tb["cls"][i] for i in keep]))
+        # (between two kept neighbours every dropped index has the class of both: nothing is lost for either clause)
+    json.dump(slim, open(path, "w"))
+    res = ck.tlc("ToleranceBuckets", "ToleranceBuckets_trace.cfg", env={"BUCKETS_FILE": path}, coverage=False, workers=4, timeout=1500)
+    if not res.ok or len(res.records) != len(slim):
+        raise Machinery("ToleranceBuckets validation failed: %s\n%s" % (res.violated, res.tail))
+    by = {t["id"]: t for t in slim}
+    for v in res.records:
+        ck.traces += 1
+        ck.count_nontrivial(("buckets", v["id"]))
+        tb = by[v["id"]]
+        if not v["monotone"] or not v["narrow"]:
+            j = v["witness"]
+            what = "class-wider-than-tolerance" if not v["narrow"] else "classing-not-monotone"
+            detail = ""
+            if j:
+                i = next(i for i in range(len(tb["xs"])) if tb["cls"][i] == tb["cls"][j - 1])
+                detail = ": %s and %s are in one class, ratio %.4f > 1 + %d/%d" % (tb["xs"][i], tb["xs"][j - 1],
+                                                                                 tb["xs"][j - 1] / tb["xs"][i], tb["on"], tb["od"])
+            ck.violation("C16/buckets/%s" % what,
+                         "logscale_to_tolerance with tolerance %d/%d on %s%s" % (tb["on"], tb["od"], v["id"], detail),
+                         {"kind": "buckets", "on": tb["on"], "od": tb["od"], "xs": tb["xs"][:400]})
+    ck.extra["bucket_tables_validated"] = len(res.records)
 
 
 def replay(path):
     import os
     rec = json.load(open(path))
+    if rec.get("kind") == "buckets":
+        import numpy as np, pandas as pd
+        from accelforge.mapper.FFM._pareto_df.pareto import logscale_to_tolerance
+        xs = rec["xs"]
+        out = [float(v) for v in logscale_to_tolerance(pd.Series(np.array(xs, dtype=np.float64)), rec["on"] / rec["od"])]
+        bad = [(a, b) for a, va in zip(xs, out) for b, vb in zip(xs, out)
+               if va == vb and a <= b and b * rec["od"] > a * (rec["od"] + rec["on"])]
+        print("pairs in one class with a ratio above 1 + %d/%d: %s" % (rec["on"], rec["od"], bad[:5]))
+        if bad:
+            print("VIOLATION property=C16 replay=%s" % path)
+            return 1
+        print("no disagreement on this case")
+        return 0
     ck = Check("C16", "quick", 0)
     ck.work = os.path.join(os.path.dirname(os.path.abspath(path)), "_replay_tmp")
     os.makedirs(ck.work, exist_ok=True)
